@@ -206,8 +206,8 @@ class PipeCase:
         start = materialize(self.start, mk)
         end = materialize(self.end, mk)
         fill = materialize(self.fill, mk)
-        start = E.SymInt(E.Z(start))
-        end = None if end is None else E.SymInt(E.Z(end))
+        start = start if isinstance(start, E.SymInt) else E.SymInt(E.Z(start))
+        end = None if end is None else (end if isinstance(end, E.SymInt) else E.SymInt(E.Z(end)))
         out_path = os.path.join(self.workdir, 'out.bin')
         try:
             asm = eng.Assembler(
